@@ -136,7 +136,13 @@ class Child:
             _send(wfd, ('crashed', None, None, disk.log))
             os._exit(137)
 
+        def pause():
+            _send(wfd, ('paused', None, None, list(disk.log)))
+            if _recv(rfd) is None:  # the driver went away
+                os._exit(0)
+
         disk = diskmod.Disk(self.root, die)
+        disk.on_pause = pause
         diskmod.install(disk)
         module = __import__(optable, fromlist=['OPS'])
         ops = module.OPS
@@ -145,8 +151,8 @@ class Child:
             msg = _recv(rfd)
             if msg is None:
                 return
-            name, args, crash = msg
-            disk.begin(crash)
+            name, args, crash, pause = msg
+            disk.begin(crash, pause)
             try:
                 value = ops[name](ctx, **args)
                 reply = ('ok', value, None, disk.end())
@@ -154,9 +160,20 @@ class Child:
                 reply = ('exc', f'{type(err).__name__}: {err}'[:500], type(err).__name__, disk.end())
             _send(wfd, reply)
 
-    def call(self, name: str, args: typing.Optional[dict] = None, crash: typing.Optional[dict] = None) -> Result:
+    def call(self, name: str, args: typing.Optional[dict] = None, crash: typing.Optional[dict] = None,
+             pause: typing.Optional[dict] = None) -> Result:
+        """Execute one operation. With `pause` ({'at': n, 'match': suffixes}) the child parks before its n-th
+        tracked read and this returns status 'paused'; resume() continues it and returns the final result."""
         assert self.alive
-        _send(self._w, (name, args or {}, crash))
+        _send(self._w, (name, args or {}, crash, pause))
+        return self._reply()
+
+    def resume(self) -> Result:
+        assert self.alive
+        _send(self._w, ('resume',))
+        return self._reply()
+
+    def _reply(self) -> Result:
         reply = _recv(self._r)
         if reply is None:
             self._reap()
